@@ -46,6 +46,8 @@ class Recorder:
         self.fifo = fifo
         self.projectors: list[Callable[[], dict]] = []
         self.deferred: dict[int, dict] = {}
+        self.loop = None
+        self.event_steps: set[int] = set()
         self.open_calls: set[int] = set()
         self.signatures: list[Callable[[], Any]] = []   # cheap change detectors (optional fast path)
         self.last_sig = None
@@ -83,6 +85,8 @@ class Recorder:
 
     # ---- events -------------------------------------------------------------------------
     def emit(self, ev: dict) -> None:
+        if self.loop is not None:
+            self.event_steps.add(self.loop.steps)
         if CLOCK.us != self.last_us:
             self.last_us = CLOCK.us
             self.events.append({"e": "time", "now": ("us", CLOCK.us)})
@@ -162,6 +166,7 @@ class Recorder:
 
     def install(self, loop: vloop.VLoop) -> None:
         prev = loop.after_handle
+        self.loop = loop
 
         def after(h):
             if prev is not None:
